@@ -31,54 +31,54 @@ def LeafSound (cls : LeafCls) : Prop := ∀ docs, LeafSoundOn cls docs
 /-! ## compile is sound (partial: side conditions `okQ`) -/
 
 mutual
-theorem compile_mem (cls : LeafCls) (scoring : Bool) (docs : List ADoc) (hcls : LeafSoundOn cls docs)
+theorem compile_mem (cls : LeafCls) (guard : Bool) (scoring : Bool) (docs : List ADoc) (hcls : LeafSoundOn cls docs)
     (d : Nat) (hd : d < docs.length) :
-    (q : Query) → (b : Bool) → okQ q = true →
-      mem docs.length (compile cls scoring docs b q) d = sem q docs[d]
+    (q : Query) → (b : Bool) → okQ guard q = true →
+      mem docs.length (compile cls guard scoring docs b q) d = sem q docs[d]
   | .leaf l, b, h => by
     simp only [compile, sem]
     exact hcls scoring b l d hd (by simpa [okQ] using h)
   | .boost q, b, h => by
     simp only [compile, sem]
-    exact compile_mem cls scoring docs hcls d hd q _ (by simpa [okQ] using h)
+    exact compile_mem cls guard scoring docs hcls d hd q _ (by simpa [okQ] using h)
   | .constScore q, b, h => by
-    have ih := compile_mem cls scoring docs hcls d hd q b (by simpa [okQ] using h)
+    have ih := compile_mem cls guard scoring docs hcls d hd q b (by simpa [okQ] using h)
     simp only [compile, sem]
     split
     · simpa [mem] using ih
     · exact ih
   | .disMax qs, b, h => by
-    have ih := compileAny_vals cls scoring docs hcls d hd qs b (by simpa [okQ] using h)
+    have ih := compileAny_vals cls guard scoring docs hcls d hd qs b (by simpa [okQ] using h)
     simp only [compile, sem]
-    rw [mem_boolScorer scoring docs.length d hd _ _ (singleOkT_compileAny cls scoring docs b qs), ih,
+    rw [mem_boolScorer guard scoring docs.length d hd _ _ (singleOkT_compileAny cls guard scoring docs b qs), ih,
       boolSem_should_only, semAny_eq_any]
   | .bool cs msm, b, h => by
-    have h' : singleOk cs msm = true ∧ okCs cs = true := by simpa [okQ] using h
-    have ih := compileClauses_vals cls scoring docs hcls d hd cs b h'.2
+    have h' : singleOk guard cs msm = true ∧ okCs guard cs = true := by simpa [okQ] using h
+    have ih := compileClauses_vals cls guard scoring docs hcls d hd cs b h'.2
     simp only [compile, sem]
-    rw [mem_boolScorer scoring docs.length d hd _ _
+    rw [mem_boolScorer guard scoring docs.length d hd _ _
       (by rw [singleOkT_compileClauses]; exact h'.1), ih]
-theorem compileAny_vals (cls : LeafCls) (scoring : Bool) (docs : List ADoc) (hcls : LeafSoundOn cls docs)
+theorem compileAny_vals (cls : LeafCls) (guard : Bool) (scoring : Bool) (docs : List ADoc) (hcls : LeafSoundOn cls docs)
     (d : Nat) (hd : d < docs.length) :
-    (qs : List Query) → (b : Bool) → okQs qs = true →
-      valsOf docs.length d (compileAny cls scoring docs b qs)
+    (qs : List Query) → (b : Bool) → okQs guard qs = true →
+      valsOf docs.length d (compileAny cls guard scoring docs b qs)
         = qs.map (fun q => (Occur.should, sem q docs[d]))
   | [], _, _ => by simp [compileAny, valsOf]
   | q :: qs, b, h => by
-    have h' : okQ q = true ∧ okQs qs = true := by simpa [okQs] using h
-    have i1 := compile_mem cls scoring docs hcls d hd q b h'.1
-    have i2 := compileAny_vals cls scoring docs hcls d hd qs b h'.2
+    have h' : okQ guard q = true ∧ okQs guard qs = true := by simpa [okQs] using h
+    have i1 := compile_mem cls guard scoring docs hcls d hd q b h'.1
+    have i2 := compileAny_vals cls guard scoring docs hcls d hd qs b h'.2
     simp only [compileAny, valsOf, List.map_cons] at i2 ⊢
     rw [i1, i2]
-theorem compileClauses_vals (cls : LeafCls) (scoring : Bool) (docs : List ADoc) (hcls : LeafSoundOn cls docs)
+theorem compileClauses_vals (cls : LeafCls) (guard : Bool) (scoring : Bool) (docs : List ADoc) (hcls : LeafSoundOn cls docs)
     (d : Nat) (hd : d < docs.length) :
-    (cs : List (Occur × Query)) → (b : Bool) → okCs cs = true →
-      valsOf docs.length d (compileClauses cls scoring docs b cs) = semClauses cs docs[d]
+    (cs : List (Occur × Query)) → (b : Bool) → okCs guard cs = true →
+      valsOf docs.length d (compileClauses cls guard scoring docs b cs) = semClauses cs docs[d]
   | [], _, _ => by simp [compileClauses, valsOf, semClauses]
   | (o, q) :: cs, b, h => by
-    have h' : okQ q = true ∧ okCs cs = true := by simpa [okCs] using h
-    have i1 := compile_mem cls scoring docs hcls d hd q b h'.1
-    have i2 := compileClauses_vals cls scoring docs hcls d hd cs b h'.2
+    have h' : okQ guard q = true ∧ okCs guard cs = true := by simpa [okCs] using h
+    have i1 := compile_mem cls guard scoring docs hcls d hd q b h'.1
+    have i2 := compileClauses_vals cls guard scoring docs hcls d hd cs b h'.2
     simp only [compileClauses, valsOf, List.map_cons, semClauses] at i2 ⊢
     rw [i1, i2]
 end
@@ -87,14 +87,16 @@ end
 Full statement (DESIGN §7): for every query tree and segment,
   `docs (interp (compile q seg)) = (seg.docs.filter (sem q)).ids`.
 It is false as stated (see `C03_msm_single_clause_counterexample`, `C03_phrase_slop3_inconsistent`);
-the proved part carries the side condition `okQ q`:
-  * every boolean node with exactly one clause has `msm ≤ 1` (SHOULD) / `msm = 0` (MUST) — F4;
+the proved part carries the side condition `okQ guard q`:
+  * if the single-clause branch does not honour the minimum (`guard = false`): every boolean node
+    with exactly one clause has `msm ≤ 1` (SHOULD) / `msm = 0` (MUST) — F4; void with the guard
+    (see `C03_compile_sound`);
   * no phrase of ≥ 3 terms with slop ≥ 1 — S6;
   * no fuzzy leaf in prefix mode (`C03_fuzzy_prefix_counterexample`).
 -/
-theorem C03_compile_sound_partial (cls : LeafCls) (scoring b : Bool)
-    (docs : List ADoc) (hcls : LeafSoundOn cls docs) (q : Query) (hok : okQ q = true) :
-    (interp docs.length (compile cls scoring docs b q)).filterMap (fun d => docs[d]?.map (·.id))
+theorem C03_compile_sound_partial (cls : LeafCls) (guard : Bool) (scoring b : Bool)
+    (docs : List ADoc) (hcls : LeafSoundOn cls docs) (q : Query) (hok : okQ guard q = true) :
+    (interp docs.length (compile cls guard scoring docs b q)).filterMap (fun d => docs[d]?.map (·.id))
       = (docs.filter (sem q)).map (·.id) := by
   rw [← range_filterMap_getElem docs (sem q) (·.id)]
   unfold interp
@@ -102,75 +104,106 @@ theorem C03_compile_sound_partial (cls : LeafCls) (scoring b : Bool)
   apply filterMap_congr'
   intro d hdm
   have hd : d < docs.length := List.mem_range.mp hdm
-  rw [compile_mem cls scoring docs hcls d hd q b hok]
+  rw [compile_mem cls guard scoring docs hcls d hd q b hok]
   simp [List.getElem?_eq_getElem hd]
 
 /-- the scorer tree iterates exactly over the matching segment doc ids, in increasing order -/
-theorem C03_compile_sound_docids (cls : LeafCls) (scoring b : Bool)
-    (docs : List ADoc) (hcls : LeafSoundOn cls docs) (q : Query) (hok : okQ q = true) :
-    interp docs.length (compile cls scoring docs b q)
+theorem C03_compile_sound_docids (cls : LeafCls) (guard : Bool) (scoring b : Bool)
+    (docs : List ADoc) (hcls : LeafSoundOn cls docs) (q : Query) (hok : okQ guard q = true) :
+    interp docs.length (compile cls guard scoring docs b q)
       = (List.range docs.length).filter (fun d => match docs[d]? with | some x => sem q x | none => false) := by
   unfold interp
   apply List.filter_congr
   intro d hdm
   have hd : d < docs.length := List.mem_range.mp hdm
-  rw [compile_mem cls scoring docs hcls d hd q b hok]
+  rw [compile_mem cls guard scoring docs hcls d hd q b hok]
   simp [List.getElem?_eq_getElem hd]
 
 /-- the collector paths (`Weight::for_each*`), which bypass the single-clause shortcut at the
 outermost boolean weight, produce the same set -/
-theorem C03_compileTop_sound_partial (cls : LeafCls) (scoring : Bool)
+theorem C03_compileTop_sound_partial (cls : LeafCls) (guard : Bool) (scoring : Bool)
     (docs : List ADoc) (hcls : LeafSoundOn cls docs) (d : Nat) (hd : d < docs.length) :
-    (q : Query) → okQ q = true → mem docs.length (compileTop cls scoring docs q) d = sem q docs[d]
+    (q : Query) → okQ guard q = true → mem docs.length (compileTop cls guard scoring docs q) d = sem q docs[d]
   | .leaf l, hok => by
     simp only [compileTop]
-    exact compile_mem cls scoring docs hcls d hd _ false hok
+    exact compile_mem cls guard scoring docs hcls d hd _ false hok
   | .boost q, hok => by
-    have hq : okQ q = true := by simpa [okQ] using hok
+    have hq : okQ guard q = true := by simpa [okQ] using hok
     simp only [compileTop, sem]
     split
-    · exact compile_mem cls scoring docs hcls d hd q true hq
-    · exact C03_compileTop_sound_partial cls scoring docs hcls d hd q hq
+    · exact compile_mem cls guard scoring docs hcls d hd q true hq
+    · exact C03_compileTop_sound_partial cls guard scoring docs hcls d hd q hq
   | .constScore q, hok => by
-    have hq : okQ q = true := by simpa [okQ] using hok
+    have hq : okQ guard q = true := by simpa [okQ] using hok
     simp only [compileTop, sem]
     split
-    · simpa [mem] using compile_mem cls scoring docs hcls d hd q false hq
-    · exact C03_compileTop_sound_partial cls scoring docs hcls d hd q hq
+    · simpa [mem] using compile_mem cls guard scoring docs hcls d hd q false hq
+    · exact C03_compileTop_sound_partial cls guard scoring docs hcls d hd q hq
   | .disMax qs, hok => by
-    have ih := compileAny_vals cls scoring docs hcls d hd qs false (by simpa [okQ] using hok)
+    have ih := compileAny_vals cls guard scoring docs hcls d hd qs false (by simpa [okQ] using hok)
     simp only [compileTop, sem]
     rw [mem_complex_eq_boolSem scoring docs.length d hd, ih, boolSem_should_only, semAny_eq_any]
   | .bool cs msm, hok => by
-    have h' : singleOk cs msm = true ∧ okCs cs = true := by simpa [okQ] using hok
-    have ih := compileClauses_vals cls scoring docs hcls d hd cs false h'.2
+    have h' : singleOk guard cs msm = true ∧ okCs guard cs = true := by simpa [okQ] using hok
+    have ih := compileClauses_vals cls guard scoring docs hcls d hd cs false h'.2
     simp only [compileTop, sem]
     rw [mem_complex_eq_boolSem scoring docs.length d hd, ih]
 
-/-! ## F4: the single-clause shortcut ignores `minimum_number_should_match` -/
+/-! ## F4: the single-clause shortcut and `minimum_number_should_match`
 
-/-- one SHOULD clause with `msm = 2`: the specification matches nothing, the scorer built by
-`BooleanWeight::scorer` matches every document of the clause — while the collector paths
-(`complex_scorer` directly) match nothing: the paths disagree with each other. -/
+`guard` says whether the `weights.len() == 1` branch of `BooleanWeight::scorer` honours the
+minimum; the value for the code as it is now is `singleClauseGuard`, regenerated from the source
+(`Gen.BOOL_SINGLE_CLAUSE_HONOURS_MSM`). With the guard the side condition on single-clause
+booleans disappears (`okQ true` only constrains leaves). -/
+
+/-- with the guard, `okQ` puts no condition on boolean nodes -/
+theorem singleOk_guard (cs : List (Occur × Query)) (msm : Nat) : singleOk true cs msm = true := by
+  simp [singleOk]
+
+/-- DESIGN §7 `C03_compile_sound`, for the code with the single-clause guard: for every query tree
+whose leaves are `leafOk` (no ≥ 3-term sloppy phrase, no fuzzy prefix) and every segment, the
+scorer tree iterates exactly over the documents satisfying `sem`. -/
+theorem C03_compile_sound (cls : LeafCls) (scoring b : Bool) (docs : List ADoc)
+    (hcls : LeafSoundOn cls docs) (q : Query) (hleaves : okQ true q = true) :
+    (interp docs.length (compile cls true scoring docs b q)).filterMap (fun d => docs[d]?.map (·.id))
+      = (docs.filter (sem q)).map (·.id) :=
+  C03_compile_sound_partial cls true scoring b docs hcls q hleaves
+
+/-- the same for the model that follows the source: conditional on the extracted guard -/
+theorem C03_compile_sound_extracted (hg : singleClauseGuard = true) (cls : LeafCls) (scoring b : Bool)
+    (docs : List ADoc) (hcls : LeafSoundOn cls docs) (q : Query) (hleaves : okQ true q = true) :
+    (interp docs.length (compile cls singleClauseGuard scoring docs b q)).filterMap
+        (fun d => docs[d]?.map (·.id))
+      = (docs.filter (sem q)).map (·.id) := by
+  rw [hg]
+  exact C03_compile_sound cls scoring b docs hcls q hleaves
+
+/-- without the guard (the pinned code): one SHOULD clause with `msm = 2` — the specification
+matches nothing, the scorer built by `BooleanWeight::scorer` matches every document of the clause,
+while the collector paths (`complex_scorer` directly) match nothing: the paths disagree with each
+other. With the guard all of them match nothing. -/
 theorem C03_msm_single_clause_counterexample :
     let doc : ADoc := ⟨7, [⟨1, [97], [0]⟩], []⟩
     let q : Query := .bool [(.should, .leaf (.term 1 [97]))] 2
     sem q doc = false
-      ∧ interp 1 (compile leafTree true [doc] false q) = [0]
-      ∧ interp 1 (compile leafTree false [doc] false q) = [0]
-      ∧ interp 1 (compileTop leafTree true [doc] q) = []
-      ∧ okQ q = false := by
+      ∧ interp 1 (compile leafTree false true [doc] false q) = [0]
+      ∧ interp 1 (compile leafTree false false [doc] false q) = [0]
+      ∧ interp 1 (compileTop leafTree false true [doc] q) = []
+      ∧ okQ false q = false
+      ∧ interp 1 (compile leafTree true true [doc] false q) = []
+      ∧ okQ true q = true := by
   decide
 
-/-- the same shortcut with one MUST clause and `msm = 1` (two MUST clauses with `msm = 1`
-correctly match nothing) -/
+/-- without the guard: the same shortcut with one MUST clause and `msm = 1` (two MUST clauses
+with `msm = 1` correctly match nothing); with the guard: nothing -/
 theorem C03_msm_single_must_clause_counterexample :
     let doc : ADoc := ⟨7, [⟨1, [97], [0]⟩, ⟨1, [98], [1]⟩], []⟩
     let a : Query := .leaf (.term 1 [97])
     let b : Query := .leaf (.term 1 [98])
     sem (.bool [(.must, a)] 1) doc = false
-      ∧ interp 1 (compile leafTree true [doc] false (.bool [(.must, a)] 1)) = [0]
-      ∧ interp 1 (compile leafTree true [doc] false (.bool [(.must, a), (.must, b)] 1)) = [] := by
+      ∧ interp 1 (compile leafTree false true [doc] false (.bool [(.must, a)] 1)) = [0]
+      ∧ interp 1 (compile leafTree false true [doc] false (.bool [(.must, a), (.must, b)] 1)) = []
+      ∧ interp 1 (compile leafTree true true [doc] false (.bool [(.must, a)] 1)) = [] := by
   decide
 
 /-! ## collectors agree -/
@@ -178,16 +211,16 @@ theorem C03_msm_single_must_clause_counterexample :
 /-- Count, id collection and ranking with a limit ≥ number of matches, scoring on or off, through
 `Weight::scorer` or `Weight::for_each*`: the same documents — the live documents of the segment
 that satisfy the query; deleted documents are invisible to all of them. -/
-theorem C03_collectors_agree (cls : LeafCls) (s : Seg) (hcls : LeafSoundOn cls s.docs) (q : Query)
-    (hok : okQ q = true) (scoring : Bool) :
-    collectDocs cls scoring s q
+theorem C03_collectors_agree (cls : LeafCls) (guard : Bool) (s : Seg) (hcls : LeafSoundOn cls s.docs) (q : Query)
+    (hok : okQ guard q = true) (scoring : Bool) :
+    collectDocs cls guard scoring s q
         = (List.range s.docs.length).filter
             (fun d => (match s.docs[d]? with | some x => sem q x | none => false) && aliveAt s.alive d)
-      ∧ collectDocsTop cls scoring s q = collectDocs cls scoring s q
-      ∧ collectCount cls scoring s q = (collectIds cls scoring s q).length := by
+      ∧ collectDocsTop cls guard scoring s q = collectDocs cls guard scoring s q
+      ∧ collectCount cls guard scoring s q = (collectIds cls guard scoring s q).length := by
   refine ⟨?_, ?_, ?_⟩
   · unfold collectDocs
-    rw [C03_compile_sound_docids cls scoring false s.docs hcls q hok, List.filter_filter]
+    rw [C03_compile_sound_docids cls guard scoring false s.docs hcls q hok, List.filter_filter]
     apply List.filter_congr
     intro d _
     rw [Bool.and_comm]
@@ -196,8 +229,8 @@ theorem C03_collectors_agree (cls : LeafCls) (s : Seg) (hcls : LeafSoundOn cls s
     apply List.filter_congr
     intro d hdm
     have hd : d < s.docs.length := List.mem_range.mp hdm
-    rw [C03_compileTop_sound_partial cls scoring s.docs hcls d hd q hok,
-      compile_mem cls scoring s.docs hcls d hd q false hok]
+    rw [C03_compileTop_sound_partial cls guard scoring s.docs hcls d hd q hok,
+      compile_mem cls guard scoring s.docs hcls d hd q false hok]
   · unfold collectCount collectIds collectDocs interp
     symm
     apply length_filterMap_of_isSome
@@ -208,19 +241,19 @@ theorem C03_collectors_agree (cls : LeafCls) (s : Seg) (hcls : LeafSoundOn cls s
     simp [List.getElem?_eq_getElem hd]
 
 /-- scoring enabled and disabled give the same documents -/
-theorem C03_scoring_irrelevant (cls : LeafCls) (s : Seg) (hcls : LeafSoundOn cls s.docs) (q : Query)
-    (hok : okQ q = true) : collectDocs cls true s q = collectDocs cls false s q := by
-  rw [(C03_collectors_agree cls s hcls q hok true).1, (C03_collectors_agree cls s hcls q hok false).1]
+theorem C03_scoring_irrelevant (cls : LeafCls) (guard : Bool) (s : Seg) (hcls : LeafSoundOn cls s.docs) (q : Query)
+    (hok : okQ guard q = true) : collectDocs cls guard true s q = collectDocs cls guard false s q := by
+  rw [(C03_collectors_agree cls guard s hcls q hok true).1, (C03_collectors_agree cls guard s hcls q hok false).1]
 
 /-- `Weight::count`: with no deleted document the count shortcut (`count_including_deleted`) is
 the number of collected documents. (With deletes the code filters by the alive bitset; the
 `example` below shows the shortcut would be wrong there.) -/
-theorem C03_count_shortcut_sound (cls : LeafCls) (s : Seg) (q : Query)
+theorem C03_count_shortcut_sound (cls : LeafCls) (guard : Bool) (s : Seg) (q : Query)
     (hlen : s.alive.length = s.docs.length) (hnodel : s.alive.all id = true) :
-    weightCount cls s q = collectCount cls false s q
-      ∧ (interp s.docs.length (compile cls false s.docs false q)).length = collectCount cls false s q := by
-  have key : (interp s.docs.length (compile cls false s.docs false q)).length
-      = collectCount cls false s q := by
+    weightCount cls guard s q = collectCount cls guard false s q
+      ∧ (interp s.docs.length (compile cls guard false s.docs false q)).length = collectCount cls guard false s q := by
+  have key : (interp s.docs.length (compile cls guard false s.docs false q)).length
+      = collectCount cls guard false s q := by
     unfold collectCount collectDocs
     congr 1
     symm
@@ -236,34 +269,34 @@ theorem C03_count_shortcut_sound (cls : LeafCls) (s : Seg) (q : Query)
 /-! ## whole searcher = specification; independence of segmentation and of other deletes -/
 
 /-- per segment: collected ids = ids of the live documents satisfying the query -/
-theorem C03_segment_ids (cls : LeafCls) (scoring : Bool) (s : Seg) (hcls : LeafSoundOn cls s.docs)
-    (hwf : s.wf) (q : Query) (hok : okQ q = true) :
-    collectIds cls scoring s q = (s.live.filter (sem q)).map (·.id) := by
+theorem C03_segment_ids (cls : LeafCls) (guard : Bool) (scoring : Bool) (s : Seg) (hcls : LeafSoundOn cls s.docs)
+    (hwf : s.wf) (q : Query) (hok : okQ guard q = true) :
+    collectIds cls guard scoring s q = (s.live.filter (sem q)).map (·.id) := by
   unfold collectIds
-  rw [(C03_collectors_agree cls s hcls q hok scoring).1]
+  rw [(C03_collectors_agree cls guard s hcls q hok scoring).1]
   exact range_filterMap_live s.docs s.alive hwf (sem q)
 
 /-- the result of a search over any corpus is the specification's answer -/
-theorem C03_search_eq_answer (cls : LeafCls) (scoring : Bool) (c : Corpus)
-    (hcls : ∀ s ∈ c, LeafSoundOn cls s.docs) (hwf : ∀ s ∈ c, s.wf) (q : Query) (hok : okQ q = true) :
-    searchIds cls scoring c q = answer q c := by
+theorem C03_search_eq_answer (cls : LeafCls) (guard : Bool) (scoring : Bool) (c : Corpus)
+    (hcls : ∀ s ∈ c, LeafSoundOn cls s.docs) (hwf : ∀ s ∈ c, s.wf) (q : Query) (hok : okQ guard q = true) :
+    searchIds cls guard scoring c q = answer q c := by
   unfold searchIds answer Corpus.live
   induction c with
   | nil => simp
   | cons s c ih =>
     simp only [List.flatMap_cons, List.filter_append, List.map_append]
-    rw [C03_segment_ids cls scoring s (hcls s (by simp)) (hwf s (by simp)) q hok,
+    rw [C03_segment_ids cls guard scoring s (hcls s (by simp)) (hwf s (by simp)) q hok,
       ih (fun s' hs' => hcls s' (by simp [hs'])) (fun s' hs' => hwf s' (by simp [hs']))]
 
 /-- the answer depends only on the live documents: any two partitions into segments (any order,
 merged or not, whatever deleted documents they still carry) of the same live documents give the
 same result up to order; deleting *other* documents removes exactly those from the answer. -/
-theorem C03_segmentation_invariant (cls : LeafCls) (s1 s2 : Bool)
+theorem C03_segmentation_invariant (cls : LeafCls) (guard : Bool) (s1 s2 : Bool)
     (c1 c2 : Corpus) (hc1 : ∀ s ∈ c1, LeafSoundOn cls s.docs) (hc2 : ∀ s ∈ c2, LeafSoundOn cls s.docs)
-    (h1 : ∀ s ∈ c1, s.wf) (h2 : ∀ s ∈ c2, s.wf) (q : Query) (hok : okQ q = true)
+    (h1 : ∀ s ∈ c1, s.wf) (h2 : ∀ s ∈ c2, s.wf) (q : Query) (hok : okQ guard q = true)
     (hperm : c1.live.Perm c2.live) :
-    (searchIds cls s1 c1 q).Perm (searchIds cls s2 c2 q) := by
-  rw [C03_search_eq_answer cls s1 c1 hc1 h1 q hok, C03_search_eq_answer cls s2 c2 hc2 h2 q hok]
+    (searchIds cls guard s1 c1 q).Perm (searchIds cls guard s2 c2 q) := by
+  rw [C03_search_eq_answer cls guard s1 c1 hc1 h1 q hok, C03_search_eq_answer cls guard s2 c2 hc2 h2 q hok]
   unfold answer
   exact (hperm.filter _).map _
 
@@ -288,9 +321,11 @@ theorem C03_leafTree_sound (docs : List ADoc) (hw : DocsWf docs) : LeafSoundOn l
 /-- hypothesis-free instance for the executable model: what `tvmodel` computes for `search` is
 what it computes for `answer`, for every corpus and every query satisfying the side conditions -/
 theorem C03_search_eq_answer_concrete (scoring : Bool) (c : Corpus)
-    (hwf : ∀ s ∈ c, s.wf) (hdw : ∀ s ∈ c, DocsWf s.docs) (q : Query) (hok : okQ q = true) :
-    searchIds leafTree scoring c q = answer q c :=
-  C03_search_eq_answer leafTree scoring c (fun s hs => leafTree_soundOn s.docs (hdw s hs)) hwf q hok
+    (hwf : ∀ s ∈ c, s.wf) (hdw : ∀ s ∈ c, DocsWf s.docs) (q : Query)
+    (hok : okQ singleClauseGuard q = true) :
+    searchIds leafTree singleClauseGuard scoring c q = answer q c :=
+  C03_search_eq_answer leafTree singleClauseGuard scoring c
+    (fun s hs => leafTree_soundOn s.docs (hdw s hs)) hwf q hok
 
 /-! ## S6: phrases of ≥ 3 terms with slop ≥ 1 -/
 
@@ -397,15 +432,15 @@ example :
     let q : Query := .bool [(.must, .leaf (.term 1 [97])),
       (.should, .bool [(.should, .leaf (.term 1 [98])), (.mustNot, .leaf .all)] 0),
       (.mustNot, .disMax [.leaf (.term 1 [99])])] 0
-    okQ q = true := by decide
+    okQ false q = true ∧ okQ true q = true := by decide
 example :
     let d1 : ADoc := ⟨1, [⟨1, [97], [0]⟩], []⟩
     let d2 : ADoc := ⟨2, [⟨1, [97], [0]⟩, ⟨1, [99], [1]⟩], []⟩
     let d3 : ADoc := ⟨3, [⟨1, [97], [0]⟩], []⟩
     let c : Corpus := [⟨[d1, d2], [true, true]⟩, ⟨[d3], [false]⟩]
     let q : Query := .bool [(.must, .leaf (.term 1 [97])), (.mustNot, .leaf (.term 1 [99]))] 0
-    (∀ s ∈ c, s.wf) ∧ answer q c = [1] ∧ searchIds leafTree true c q = [1]
-      ∧ searchIds leafTree false c q = [1] := by
+    (∀ s ∈ c, s.wf) ∧ answer q c = [1] ∧ searchIds leafTree false true c q = [1]
+      ∧ searchIds leafTree singleClauseGuard false c q = [1] := by
   refine ⟨?_, by decide, by decide, by decide⟩
   intro s hs
   simp at hs
@@ -417,15 +452,15 @@ example :
     let doc2 : ADoc := ⟨2, [⟨1, [97], [0]⟩], []⟩
     let t (c : Nat) : Query := .leaf (.term 1 [c])
     let q : Query := .bool [(.should, .leaf .all), (.should, t 97), (.should, t 98), (.should, t 99)] 3
-    okQ q = true ∧ sem q doc = true ∧ sem q doc2 = false
-      ∧ interp 2 (compile leafTree true [doc, doc2] false q) = [0]
-      ∧ interp 2 (compileTop leafTree false [doc, doc2] q) = [0] := by
+    okQ false q = true ∧ sem q doc = true ∧ sem q doc2 = false
+      ∧ interp 2 (compile leafTree false true [doc, doc2] false q) = [0]
+      ∧ interp 2 (compileTop leafTree true false [doc, doc2] q) = [0] := by
   decide
 -- with a deleted document the count shortcut would over-count: the side condition is needed
 example :
     let d1 : ADoc := ⟨1, [⟨1, [97], [0]⟩], []⟩
     let s : Seg := ⟨[d1, d1], [true, false]⟩
-    termCountShortcut s 1 [97] = 2 ∧ collectCount leafTree false s (.leaf (.term 1 [97])) = 1 := by
+    termCountShortcut s 1 [97] = 2 ∧ collectCount leafTree false false s (.leaf (.term 1 [97])) = 1 := by
   decide
 example : ([2, 5, 9] : List Nat).Pairwise (· ≤ ·) ∧ phraseSlop [[2, 5, 9], [7]] 2 = true := by decide
 example : (-1 : Int) = (BitVec.ofNat 64 (2^64 - 1)).toInt ∧ (BitVec.ofNat 64 5).toInt = 5 := by decide
